@@ -1,6 +1,6 @@
 (* C11 - All replicas of a board agree with the table manager (in-process part).
    Only statements, each closed by [exact]; proofs are in the files imported below. *)
-From BE Require Import Model.Play Spec.PlayLaws Gen.PlayFns Proofs.Play Proofs.PlayGen Proofs.PlayGenCor.
+From BE Require Import Model.Play Spec.PlayLaws Gen.PlayFns Proofs.Play Proofs.PlayGen Proofs.PlayGenCor Gen.Skeleton Proofs.SkeletonPin.
 Local Open Scope nat_scope.
 
 (* a single-seat observer fed the accepted plays accepts every one and holds the same public state *)
@@ -40,6 +40,17 @@ Theorem C11_generated_set_dummy_hand :
   forall s h, g_set_dummy_hand s h = set_dummy_hand s h.
 Proof. exact g_set_dummy_hand_eq. Qed.
 Print Assumptions C11_generated_set_dummy_hand.
+
+(* network part: the structure of the bundled client (what it receives, sends and applies to its replica, in which order), re-extracted from client.py on this run, is the one the client processes of Model/Session.v mirror *)
+Theorem C11_client_skeleton_is_the_modelled_one :
+  client_skeleton = pinned_client_skeleton.
+Proof. exact client_skeleton_pinned. Qed.
+Print Assumptions C11_client_skeleton_is_the_modelled_one.
+
+Theorem C11_server_skeleton_is_the_modelled_one :
+  server_skeleton = pinned_server_skeleton.
+Proof. exact server_skeleton_pinned. Qed.
+Print Assumptions C11_server_skeleton_is_the_modelled_one.
 
 (* non-vacuity *)
 Theorem C11_example_hypothesis :
